@@ -79,8 +79,9 @@ class TestSpec:
         return self.gen(R(tape))
 
 
-class CaseTimeout(Exception):
-    pass
+class CaseTimeout(BaseException):
+    """Raised by the per-case watchdog.  Not an Exception: a property body's own `except Exception` handlers must not
+    turn a time budget hit into a finding (it is counted as a timeout, i.e. inconclusive)."""
 
 
 def _alarm(signum, frame):
